@@ -125,3 +125,54 @@ Definition loaded_labels (receiver_channels : option Z) (l : list acq) : list (l
 
 (* KNoise.from_file: the noise acquisitions in file order, nothing else *)
 Definition load_noise (l : list acq) : list Z := map did (filter is_noise_acquisition l).
+
+(* ---- bookkeeping tables that the translator (harness/translate/kload.py) regenerates from the source on every run ------ *)
+(* the index fields of AcqIdx *)
+Inductive idx_label := L_k1 | L_k2 | L_average | L_slice | L_contrast | L_phase | L_repetition | L_set | L_segment
+                     | L_user0 | L_user1 | L_user2 | L_user3 | L_user4 | L_user5 | L_user6 | L_user7.
+
+(* KData.KDIM_SORT_LABELS: the order in which `labels` of an acquisition lists the index values; np.lexsort takes the LAST
+   entry as the primary key, hence sort_key = rev labels *)
+Definition sort_labels : list idx_label :=
+  [L_k1; L_k2; L_average; L_slice; L_contrast; L_phase; L_repetition; L_set; L_user0; L_user1; L_user2; L_user3; L_user4; L_user7].
+(* KData.OTHER_LABELS: everything but k1, k2, in the same order (other_key = skipn 2 labels, other_k2_key = skipn 1 labels) *)
+Definition other_labels : list idx_label :=
+  [L_average; L_slice; L_contrast; L_phase; L_repetition; L_set; L_user0; L_user1; L_user2; L_user3; L_user4; L_user7].
+
+(* enums.AcqFlags: name -> bit mask, by the numbering of ISMRMRD_AcquisitionFlags in ismrmrd.h (flag n has mask 1 << (n-1)) *)
+Module FlagTable.
+  Import String.
+  Local Open Scope string_scope.
+  Definition acq_flag_table : list (string * Z) :=
+    [("ACQ_NO_FLAG", 0);
+     ("ACQ_FIRST_IN_ENCODE_STEP1", flag_mask 1); ("ACQ_LAST_IN_ENCODE_STEP1", flag_mask 2);
+     ("ACQ_FIRST_IN_ENCODE_STEP2", flag_mask 3); ("ACQ_LAST_IN_ENCODE_STEP2", flag_mask 4);
+     ("ACQ_FIRST_IN_AVERAGE", flag_mask 5); ("ACQ_LAST_IN_AVERAGE", flag_mask 6);
+     ("ACQ_FIRST_IN_SLICE", flag_mask 7); ("ACQ_LAST_IN_SLICE", flag_mask 8);
+     ("ACQ_FIRST_IN_CONTRAST", flag_mask 9); ("ACQ_LAST_IN_CONTRAST", flag_mask 10);
+     ("ACQ_FIRST_IN_PHASE", flag_mask 11); ("ACQ_LAST_IN_PHASE", flag_mask 12);
+     ("ACQ_FIRST_IN_REPETITION", flag_mask 13); ("ACQ_LAST_IN_REPETITION", flag_mask 14);
+     ("ACQ_FIRST_IN_SET", flag_mask 15); ("ACQ_LAST_IN_SET", flag_mask 16);
+     ("ACQ_FIRST_IN_SEGMENT", flag_mask 17); ("ACQ_LAST_IN_SEGMENT", flag_mask 18);
+     ("ACQ_IS_NOISE_MEASUREMENT", flag_mask 19); ("ACQ_IS_PARALLEL_CALIBRATION", flag_mask 20);
+     ("ACQ_IS_PARALLEL_CALIBRATION_AND_IMAGING", flag_mask 21); ("ACQ_IS_REVERSE", flag_mask 22);
+     ("ACQ_IS_NAVIGATION_DATA", flag_mask 23); ("ACQ_IS_PHASECORR_DATA", flag_mask 24);
+     ("ACQ_LAST_IN_MEASUREMENT", flag_mask 25); ("ACQ_IS_HPFEEDBACK_DATA", flag_mask 26);
+     ("ACQ_IS_DUMMYSCAN_DATA", flag_mask 27); ("ACQ_IS_RTFEEDBACK_DATA", flag_mask 28);
+     ("ACQ_IS_SURFACECOILCORRECTIONSCAN_DATA", flag_mask 29); ("ACQ_IS_PHASE_STABILIZATION_REFERENCE", flag_mask 30);
+     ("ACQ_IS_PHASE_STABILIZATION", flag_mask 31);
+     ("ACQ_COMPRESSION1", flag_mask 53); ("ACQ_COMPRESSION2", flag_mask 54); ("ACQ_COMPRESSION3", flag_mask 55);
+     ("ACQ_COMPRESSION4", flag_mask 56);
+     ("ACQ_USER1", flag_mask 57); ("ACQ_USER2", flag_mask 58); ("ACQ_USER3", flag_mask 59); ("ACQ_USER4", flag_mask 60);
+     ("ACQ_USER5", flag_mask 61); ("ACQ_USER6", flag_mask 62); ("ACQ_USER7", flag_mask 63); ("ACQ_USER8", flag_mask 64)].
+  (* the names in DEFAULT_IGNORE_FLAGS (a set: the order of the | operands is irrelevant, the translator sorts them) *)
+  Definition ignore_flag_names : list string :=
+    ["ACQ_IS_DUMMYSCAN_DATA"; "ACQ_IS_HPFEEDBACK_DATA"; "ACQ_IS_NAVIGATION_DATA"; "ACQ_IS_NOISE_MEASUREMENT";
+     "ACQ_IS_PARALLEL_CALIBRATION"; "ACQ_IS_PHASECORR_DATA"; "ACQ_IS_PHASE_STABILIZATION"; "ACQ_IS_PHASE_STABILIZATION_REFERENCE"].
+  Fixpoint lookup_flag (tbl : list (string * Z)) (name : string) : Z :=
+    match tbl with [] => 0 | (n, v) :: r => if String.eqb n name then v else lookup_flag r name end.
+  (* the mask computed from a (name -> value) table and a list of names *)
+  Definition mask_of (tbl : list (string * Z)) (names : list string) : Z := fold_right Z.lor 0 (map (lookup_flag tbl) names).
+  (* Python's Flag auto(): the next power of two above the largest value so far *)
+  Definition next_auto (m : Z) : Z := (if Z.eqb m 0 then 1 else 2 ^ (Z.log2 m + 1))%Z.
+End FlagTable.
